@@ -289,6 +289,28 @@ func lineEndDocs(thorough bool) []corpus.Doc {
 			out = append(out, corpus.Doc{Name: d.Format + "-" + v.name, Format: d.Format, Data: []byte(v.data), Valid: true})
 		}
 	}
+	// the small text documents in another encoding (UTF-16 little / big endian with byte order mark, Latin-1): whatever a
+	// reader makes of them - garbage today, text if an encoding is ever sniffed - it must not depend on the delivery
+	for _, d := range corpus.Small() {
+		if d.Name != "srt-lf" && d.Name != "vtt-full" && d.Name != "ssa-small" {
+			continue
+		}
+		var le, be, l1 []byte
+		le, be = append(le, 0xff, 0xfe), append(be, 0xfe, 0xff)
+		for _, r := range string(d.Data) {
+			if r > 0xffff {
+				r = '?'
+			}
+			le = append(le, byte(r), byte(r>>8))
+			be = append(be, byte(r>>8), byte(r))
+			if r > 0xff {
+				r = '?'
+			}
+			l1 = append(l1, byte(r))
+		}
+		out = append(out, corpus.Doc{Name: d.Format + "-utf16le", Format: d.Format, Data: le, Valid: true}, corpus.Doc{Name: d.Format + "-utf16be", Format: d.Format, Data: be, Valid: true},
+			corpus.Doc{Name: d.Format + "-latin1", Format: d.Format, Data: append(l1, 0xe9, '\n'), Valid: true})
+	}
 	// a document that is ONE line longer than the scanner's initial buffer, without terminator or ending in a lone
 	// CR (garbage to every format - the fact of failing, and how, must not depend on the delivery either)
 	for _, f := range []string{"srt", "vtt", "ssa"} {
